@@ -212,6 +212,19 @@ static ABT_unit l_pop(ABT_pool pool)
     urec *r = do_pop(pool);
     return r ? (ABT_unit)r->handle : ABT_UNIT_NULL;
 }
+/* the deprecated blocking pop of the legacy interface (ABT_SCHED_BASIC_WAIT falls back to it
+ * when it has nothing to run): it hands out a unit like p_pop does */
+static long l_timedwait_handouts;
+static ABT_unit l_pop_timedwait(ABT_pool pool, double abstime)
+{
+    (void)abstime;
+    urec *r = do_pop(pool);
+    if (r)
+        l_timedwait_handouts++;
+    else
+        sim_yield();
+    return r ? (ABT_unit)r->handle : ABT_UNIT_NULL;
+}
 static int l_init(ABT_pool pool, ABT_pool_config cfg)
 {
     (void)pool;
@@ -295,6 +308,8 @@ static void run_c14(void)
         ldef.p_get_size = l_get_size;
         ldef.p_push = l_push;
         ldef.p_pop = l_pop;
+        if (plan_bool())
+            ldef.p_pop_timedwait = l_pop_timedwait;
     }
     for (int i = 0; i < NUP; i++) {
         if (!S.legacy)
@@ -308,7 +323,7 @@ static void run_c14(void)
     S.P[NUP] = S.builtin;
     /* streams: each serves a mix of the three pools */
     int nes = plan_range(1, 3);
-    static const ABT_sched_predef kinds[] = { ABT_SCHED_BASIC, ABT_SCHED_PRIO, ABT_SCHED_RANDWS };
+    static const ABT_sched_predef kinds[] = { ABT_SCHED_BASIC, ABT_SCHED_PRIO, ABT_SCHED_RANDWS, ABT_SCHED_BASIC_WAIT };
     for (int e = 0; e < nes; e++) {
         ABT_pool ps[3];
         int n = 0;
@@ -321,7 +336,7 @@ static void run_c14(void)
             ABT_OK(ABT_xstream_create(wl_make_user_sched(n, ps), &S.xs[e]));
             S.user_scheds++;
         } else
-            ABT_OK(ABT_xstream_create_basic(kinds[plan_n(3)], n, ps, ABT_SCHED_CONFIG_NULL, &S.xs[e]));
+            ABT_OK(ABT_xstream_create_basic(kinds[plan_n(4)], n, ps, ABT_SCHED_CONFIG_NULL, &S.xs[e]));
     }
     int n = plan_range(1, sim_limit("units", 8));
     S.n = n;
@@ -405,6 +420,8 @@ static void run_c14(void)
         ABT_OK(ABT_pool_user_def_free(&def));
     sim_count("c14.translation_queries", (uint64_t)S.queries);
     sim_count("c14.units_created", (uint64_t)creates);
+    sim_count("c14.legacy_pop_timedwait_handouts", (uint64_t)l_timedwait_handouts);
+    l_timedwait_handouts = 0;
     sim_count("c14.handles_recycled", (uint64_t)S.recycled);
     ABT_OK(ABT_finalize());
     sim_ledger_check_empty("after ABT_finalize");
